@@ -16,8 +16,6 @@ func TestSurvey(t *testing.T) {
 	if os.Getenv("VERIF_SURVEY") == "" {
 		t.Skip("VERIF_SURVEY not set")
 	}
-	run := &rt.Run{ID: "C10", Env: rt.LoadEnv()}
-	_ = run
 	r := rt.Begin(t, "C10")
 	var sec *rt.Section
 	r.Enum("survey", "survey", func(s *rt.Section) { sec = s })
